@@ -135,6 +135,29 @@ ALL = ['C%02d' % i for i in range(1, 21)]
 PENDING_REASON = 'check not built yet in this round (runtime-monitoring plan in DESIGN.md section 4); will be claimed once its monitor runs silent on the unchanged tree'
 
 
+# additions of the later seeded-change rounds (first-call order, left-over attributes, earlier lives of the objects)
+EXTRA = {
+    'C02': ' Objects carry left-over reference loads, point forces and flow parameters of earlier uses in half of the cases.',
+    'C03': ' PanelAssembly.calc_kG0(c) with per-panel state magnitudes down to 1e-22 (no panel may be skipped); 40% of the objects are fresh when kG0 is first asked; left-over forces / flow parameters.',
+    'C04': ' 40% of the objects are fresh when the mass matrix is first asked; left-over loads, forces and flow parameters on the object.',
+    'C05': ' Spring-network stiffness matrices with exactly cancelling columns; Panel.lb with sub-critical reference loads whose reversal is super-critical (negative multipliers inside (-1,0)).',
+    'C06': ' Spring-network stiffness matrices with exactly cancelling columns; plain Panel.freq with left-over loads / forces / flow parameters on the object.',
+    'C08': ' Fresh objects whose first evaluation is an internal force at a deformed state; reference loads, forces and flow parameters left on the object; kT at exactly zero state.',
+    'C09': ' 30% of the problems have an internal force that itself depends on the load factor (displacement control).',
+    'C11': ' 40% fresh objects (field queries are the first calls); stress judged with the laminate matrix of the description, not of the object; left-over attributes.',
+    'C12': ' Penalty constants on fresh related pairs (same lay-up, other materials / offset / thicknesses; per-ply and uniform forms): symmetric, and equal to the constants after the panels evaluated their stiffness.',
+    'C14': ' Numerical kernel asked first on a fresh object and on an object whose laminate was reassigned.',
+    'C15': ' Closed-form part also with per-ply thicknesses and materials mirrored about the mid-plane.',
+    'C16': ' 40% of the shells in the energy and edge cases have an earlier life (other angle / length / radius, rebuilt or evaluated) before the geometry under test is assigned.',
+    'C17': ' 35% of the shells are fresh when the internal force is first asked.',
+    'C18': ' Point forces of an evaluated shell replaced by as many others or edited in place.',
+    'C19': ' kA asked first on a fresh object; the same object re-judged after a w edge flag, a dimension, the radius or the series orders were reassigned.',
+}
+for _pid, _t in EXTRA.items():
+    _tech, _text, _note, _ref = CLAIMED[_pid]
+    CLAIMED[_pid] = (_tech, _text + _t, _note, _ref)
+
+
 def main():
     checks = []
     for pid in ALL:
